@@ -20,5 +20,8 @@ func registerGlobals() {
 	case "C16":
 		valid.SetCustomerValidFn("dir", customFn("global", "dir"))
 		globalFnNames["dir"] = true
+		// ... and one shadows a rule the struct validator implements itself
+		valid.SetCustomerValidFn("botheq", customFn("global", "botheq"))
+		globalFnNames["botheq"] = true
 	}
 }
